@@ -81,6 +81,7 @@ type sim struct {
 	dormantDirty bool         // SetAppendedSeq ran while groups were dormant (it moves them too)
 	appearOK     int          // the group the current race2 operation creates (-1 = none)
 	wok          *wokenCall   // the Consume call held before the lock of consume() (at most one)
+	raceM        int64        // round 12: the rewind target of the current ackrewind / rewindack operation
 }
 
 // parkedCall is a Consume call running on its own goroutine, blocked in Queue.NotEmpty.
@@ -355,6 +356,18 @@ func (s *sim) oracle(kind string, g int, n int64, res string, b, a snapshot, met
 		}
 		if v != bp.c+1 || ap.c != v || ap.a != n {
 			s.fail("ack-consume-race-positions", "Ack(%d) ‖ Consume on %v: Consume returned %d, positions now %v", n, bp, v, ap)
+		}
+	case "ackrewind", "rewindack":
+		if live {
+			s.oracleRewindRace(kind, g, n, bp, ap)
+		}
+	case "rignore":
+		if live {
+			s.oracleIgnore(g, n, bp, ap)
+		}
+	case "rhandshake":
+		if live {
+			s.oracleHandshake(g, n, bp, ap, b, a)
 		}
 	case "create":
 		// (6) for stop + create: a group restored from its meta page gets the positions it had,
@@ -1302,7 +1315,9 @@ func (s *sim) caseRaceRandom(rng *rand.Rand) {
 			if len(ids) > 0 {
 				g := ids[rng.Intn(len(ids))]
 				h := s.gs[g]
-				if lo, hi := h.AcknowledgedSeq(), h.ConsumedSeq(); hi >= lo {
+				if rng.Intn(3) == 0 {
+					s.rewindRound(rng, g) // round 12: SetConsumedSeq inside the window against Ack
+				} else if lo, hi := h.AcknowledgedSeq(), h.ConsumedSeq(); hi >= lo {
 					s.doAckConsume(g, lo+rng.Int63n(hi-lo+1))
 				}
 				switch rng.Intn(3) {
@@ -1553,6 +1568,8 @@ func (a area) Run(c *core.Ctx) error {
 				s.caseFaultFixed(rng)
 			case "race":
 				s.caseRaceRandom(rng)
+			case "rewind-fixed":
+				s.caseRewindFixed(rng)
 			default:
 				s.caseRandom(rng, kind)
 			}
@@ -1600,6 +1617,8 @@ func caseKind(i int, tier string, rng *rand.Rand) string {
 		return "msync-fixed"
 	case 13:
 		return "woken-fixed"
+	case 14:
+		return "rewind-fixed"
 	}
 	if tier == "thorough" && i%40 == 7 {
 		return "pages"
